@@ -93,6 +93,29 @@ def Multi(x, how="tuple"):
     return r
 
 
+@as_function_node("o", validate_output_labels=False)
+def TY(x: int):
+    """a typed input without default (NOT_DATA until set)"""
+    DESC_CALLS.append(1)
+    r = ("t", x)
+    return r
+
+
+@as_macro_node("o")
+def ME(self):
+    """no inputs of its own: its children's inputs are free"""
+    self.n0 = nodes.F10()
+    self.n1 = nodes.F11(a=self.n0)
+    return self.n1
+
+
+@as_macro_node("o")
+def MF(self):
+    self.m0 = ME()
+    self.n0 = nodes.F12(a=self.m0)
+    return self.n0
+
+
 @as_macro_node("y")
 def MDesc(self, x):
     self.d = Desc(x=x)
@@ -147,4 +170,4 @@ for _i in range(8):
     globals()[f"DC{_i}"] = _mk_dc(_i)
 
 
-MACROS = {"MA": MA, "MB": MB, "MC": MC, "MD": MD}
+MACROS = {"MA": MA, "MB": MB, "MC": MC, "MD": MD, "ME": ME, "MF": MF}
